@@ -295,8 +295,9 @@ def inPlaceMutate (h : Heap) (g : DupGraph) (self : Nat) (selfIsBase : Bool) (ki
   -- `graph.get_path_to_base(self)` raises KeyError when `self` is not in the graph
   if (g.node? self).isNone then throw (.other, h)
   let (target, chain) ← withHeap h (inPlaceTarget h g self mutArr)
-  -- `np.broadcast_to` yields a read-only view: writing through it raises inside the guarded call
-  if chain.any (fun | .broadcastTo _ => true | _ => false) then
+  -- `np.broadcast_to` yields a read-only view, and the copy of a natively read-only base is made read-only
+  -- (`mutant_base.data.flags.writeable = base.data.flags.writeable or …`): writing raises inside the guarded call
+  if chain.any (fun | .broadcastTo _ => true | _ => false) || h.ro.contains bt.data.buf then
     throw (.valueError, g.restore h)
   let inputs' := inputs.map fun
     | .t i => Operand.t (g.placeholderIfExists i)
